@@ -177,11 +177,17 @@ def dispatch_v6(
     tree = _get_v6_tree()
     handler, peers = dispatch(tree, tokeniser, reactor, service)
 
+    # an explicit selector which matches no peer selects nothing: whatever the command is, there is
+    # no peer for it to act on (it must neither become "every peer" nor be answered as done)
+    peer_node = tree.get('peer')
+    explicit = (
+        token_list[0] == 'peer' and len(token_list) > 1 and isinstance(peer_node, dict) and token_list[1] not in peer_node
+    )
+    if explicit and not peers:
+        raise NoMatchingPeers(command)
+
     # Some handlers require all peers if none specified
     if handler in _v6_needs_peers() and not peers:
-        # an explicit selector which matches no peer must not become "every peer"
-        if token_list[0] == 'peer':
-            raise NoMatchingPeers(command)
         peers = list(reactor.peers(service))
         if not peers:
             raise NoMatchingPeers(command)
